@@ -379,6 +379,15 @@ func snapTimers(ts tally.TestScope, name string, tags map[string]string) [][]tim
 	for _, t := range ts.Snapshot().Timers() {
 		if t.Name() == name && mon.TagsEqual(t.Tags(), tags) {
 			out = append(out, append([]time.Duration(nil), t.Values()...))
+			// what a snapshot hands out is the caller's: sorting, reversing or
+			// overwriting the values must not change what later snapshots show
+			vs := t.Values()
+			for i, j := 0, len(vs)-1; i < j; i, j = i+1, j-1 {
+				vs[i], vs[j] = vs[j], vs[i]
+			}
+			if len(vs) > 0 {
+				vs[0] = -12345
+			}
 		}
 	}
 	return out
